@@ -168,7 +168,8 @@ func genLLDP(cl *caseList, rng *lib.Rand, scale int) {
 	// TLV chains at the bounds: a full-size frame of zero-length TLVs (700 iterations), of
 	// 9-bit-length TLVs (511), a value ending exactly at / one beyond the end, a header in the
 	// last 1 / 2 / 3 bytes
-	for _, size := range []int{6, 7, 8, 9, 512, 513, 514, 515, 1500} {
+	for _, size := range spans([]int{6, 7, 8, 9, 512, 513, 514, 515, 1500},
+		[2]int{6, 40}, [2]int{250, 262}, [2]int{505, 530}, [2]int{1015, 1030}, [2]int{1490, 1500}) {
 		mk := func(fill func(p []byte)) {
 			p := make([]byte, size)
 			fill(p)
@@ -663,6 +664,32 @@ func genDHCP4(cl *caseList, rng *lib.Rand, scale int) {
 // DNS messages whose names stress the decoder's recursion and length guards: compression
 // pointer cycles in every name position, pointer chains and label runs at and beyond the
 // bounds (maxRecursionLevel = 255, name length 255, narrow-integer wrap points 127/128/255/256).
+// wideStress (thorough tier): ten times the inventory of chain lengths / label totals
+var wideStress bool
+
+func spans(base []int, wide ...[2]int) []int {
+	if !wideStress {
+		return base
+	}
+	seen := map[int]bool{}
+	out := []int{}
+	for _, v := range base {
+		if !seen[v] {
+			seen[v] = true
+			out = append(out, v)
+		}
+	}
+	for _, w := range wide {
+		for v := w[0]; v <= w[1]; v++ {
+			if !seen[v] {
+				seen[v] = true
+				out = append(out, v)
+			}
+		}
+	}
+	return out
+}
+
 func dnsNameStress(rng *lib.Rand) (msgs [][]byte) {
 	hdr := func(qd, an int) []byte {
 		return []byte{0x12, 0x34, 0x84, 0, byte(qd >> 8), byte(qd), byte(an >> 8), byte(an), 0, 0, 0, 0}
@@ -717,7 +744,8 @@ func dnsNameStress(rng *lib.Rand) (msgs [][]byte) {
 	}
 	// --- pointer chains: n hops ending at a real name (at / beyond maxRecursionLevel and at the
 	//     wrap points of 8-bit counters), and the same chains closed into a cycle
-	for _, n := range []int{1, 2, 126, 127, 128, 129, 253, 254, 255, 256, 257, 258, 300, 511, 512, 600} {
+	for _, n := range spans([]int{1, 2, 126, 127, 128, 129, 253, 254, 255, 256, 257, 258, 300, 511, 512, 600},
+		[2]int{1, 40}, [2]int{118, 138}, [2]int{244, 268}, [2]int{504, 520}, [2]int{630, 640}) {
 		base := 12 + 2 + 4 // question = pointer to the chain, then type/class
 		chain := []byte{}
 		for k := 0; k < n; k++ {
@@ -733,7 +761,8 @@ func dnsNameStress(rng *lib.Rand) (msgs [][]byte) {
 		add(hdr(1, 1), q, ptr(12), rrFixed(5, 2), ptr(aOff+2+10+2), shift(cyc, aOff+2+10+2-base), end)
 	}
 	// --- label runs: total name length at and beyond 255, single labels 63/64, run of 1-byte labels
-	for _, total := range []int{62, 63, 64, 127, 128, 250, 253, 254, 255, 256, 257, 300, 512} {
+	for _, total := range spans([]int{62, 63, 64, 127, 128, 250, 253, 254, 255, 256, 257, 300, 512},
+		[2]int{2, 20}, [2]int{55, 72}, [2]int{120, 136}, [2]int{244, 268}, [2]int{505, 520}) {
 		var nm []byte
 		for len(nm) < total {
 			l := 63
@@ -938,5 +967,83 @@ func genOther(cl *caseList, rng *lib.Rand, scale int) {
 	l = append(append(l, lldpTLV(3, 2, []byte{0, 120})...), 0, 0, 0, 0)
 	for cut := 0; cut <= len(l); cut++ {
 		add("lldp.trunc", lib.MkEther(bcast, peerMAC, 0x88cc, l[:cut]))
+	}
+}
+
+// ---------------------------------------------------------------- bounded-exhaustive small payloads
+// every byte string of length 0..maxLen over a 6-symbol alphabet chosen per decoder (length
+// bytes 0/1/2, a type byte, a pointer byte, 0xff), appended to the fixed header the decoder needs
+func genExhaustive(cl *caseList, maxLen int) {
+	var strs [][]byte
+	var rec func(pre []byte, alpha []byte, n int)
+	rec = func(pre []byte, alpha []byte, n int) {
+		strs = append(strs, append([]byte{}, pre...))
+		if n == 0 {
+			return
+		}
+		for _, a := range alpha {
+			rec(append(pre, a), alpha, n-1)
+		}
+	}
+	all := func(alpha []byte) [][]byte {
+		strs = nil
+		rec(nil, alpha, maxLen)
+		return strs
+	}
+	for _, b := range all([]byte{0, 1, 2, 3, 31, 255}) { // NDP: types 1,2,3,31 / lengths 0,1,2
+		cl.add("exh.ndp", "ndp", hx(b), "-")
+		cl.add("exh.ndp", "ndp", hx(append(append([]byte{}, b...), make([]byte, 16)...)), "-")
+	}
+	for _, b := range all([]byte{0, 1, 2, 5, 0xc2, 255}) { // hop-by-hop: Pad1, PadN, router alert, jumbo
+		cl.add("exh.hbh", "hbh", hx(append([]byte{58, 0}, b...)), "-")
+		cl.add("exh.hbh", "hbh", hx(append(append([]byte{58, 0}, b...), make([]byte, 8)...)), "-")
+		cl.add("exh.hbh", "hbh", hx(b), "-")
+	}
+	for _, b := range all([]byte{0, 1, 2, 3, 6, 255}) { // LLDP: type<<1|len9, length
+		cl.add("exh.lldp", "lldp", hx(b), "-", "3")
+		cl.add("exh.lldp", "lldp", hx(append(append([]byte{}, b...), 0, 0, 0, 0, 0, 0)), "-", "127")
+	}
+	hdr := make([]byte, 240)
+	hdr[0], hdr[1], hdr[2] = 1, 1, 6
+	copy(hdr[236:], []byte{99, 130, 83, 99})
+	for _, b := range all([]byte{0, 1, 2, 53, 61, 255}) { // DHCP options: pad, lengths, message type, client id, end
+		p := append(append([]byte{}, hdr...), b...)
+		cl.add("exh.dhcpopt", "dhcpopt", hx(p), "-")
+		cl.add("exh.dhcpvalid", "dhcpvalid", hx(p), "-")
+	}
+	dh := []byte{0x12, 0x34, 0x84, 0, 0, 1, 0, 1, 0, 0, 0, 0}
+	for _, b := range all([]byte{0, 1, 0x0c, 0x0d, 0xc0, 255}) { // DNS names: root, label, pointer to 12/13
+		m := append(append([]byte{}, dh...), b...)
+		cl.add("exh.dnsq", "dnsq", hx(m), "12")
+		cl.add("exh.dnsans", "dnsans", hx(m), "12")
+		m2 := append(append([]byte{}, m...), 0, 1, 0, 1, 0, 0, 0, 0, 0, 0)
+		cl.add("exh.dnsq", "dnsq", hx(m2), "12")
+		cl.add("exh.dnsans", "dnsans", hx(m2), "12")
+		f := udpFrame(53, 40000, netip.MustParseAddr("192.168.0.129"), hostMAC, m2)
+		if _, _, ok := parseFor(f, packet.PayloadDNS); ok {
+			cl.add("exh.dnsproc", "dnsproc", hx(f))
+		}
+		v := viewOf(m2)
+		cl.add("exh.mdns", "mdns", append([]string{hx(m2)}, v.tokens(false)...)...)
+		cl.add("exh.nbns", "nbns", append([]string{hx(m2)}, v.tokens(true)...)...)
+		cl.add("exh.llmnr", "llmnr", append([]string{hx(m2)}, v.tokens(false)...)...)
+	}
+	for _, b := range all([]byte("ma-x=g")) { // CACHE-CONTROL fragments around "max-age" and '='
+		sv := strings.TrimSpace(string(b))
+		cl.add("exh.ssdpcc", "ssdpcc", hx([]byte(sv+"max-age")))
+		cl.add("exh.ssdpcc", "ssdpcc", hx([]byte("max-age"+sv)))
+	}
+	for _, b := range all([]byte{0, 3, 0x42, 0xaa, 0xe0, 255}) { // LLC/SNAP
+		f := lib.MkEther(net.HardwareAddr{0x01, 0x80, 0xc2, 0, 0, 0}, peerMAC, uint16(len(b)), b)
+		if p, _, ok := parseFor(f, packet.Payload8023); ok {
+			cl.add("exh.p8023", "p8023", hx(f), hx(p))
+		}
+	}
+	for _, b := range all([]byte{0, 2, 33, 32, 16, 255}) { // NBNS node status RDATA: count, flags
+		v := append([]byte{}, b...)
+		r := rr{name: []byte{0}, typ: 0x21, class: 1, rdata: v, rdlen: -1}
+		m := (&dnsMsg{id: 1, flags: 0x8400, qd: -1, an: -1, ns: -1, ar: -1, sec: [3][]rr{{r}, nil, nil}}).bytes()
+		vw := viewOf(m)
+		cl.add("exh.nbns.rdata", "nbns", append([]string{hx(m)}, vw.tokens(true)...)...)
 	}
 }
